@@ -125,6 +125,10 @@ def function_relations(fn):
             if a > c:
                 a, c = c, a
                 split = SWAP[split]
+            # an unsigned quantity compared with 0: `x > 0` is `x != 0`, `x <= 0` is `x == 0`
+            oty = s[2][4] if len(s[2]) > 4 else ""
+            if isinstance(oty, str) and re.match(r"^(u8|u16|u32|u64|u128|usize)$", oty) and "0" in (a, c):
+                split = "=|<>"
             out.setdefault("%s ~ %s" % (a, c), []).append(split)
     return {k: sorted(v) for k, v in out.items()}
 
@@ -151,6 +155,8 @@ def check(ck, F, rule, prefixes, floor):
         fn = F.resolve(fid)
         if fn is None or "mir" not in fn:
             continue
+        if flow.calls_new_function(F, fn):
+            continue
         cur = function_relations(fn)
         for pair, splits in sorted(ref.items()):
             key = "%s#%s" % (fid, pair)
@@ -169,4 +175,4 @@ def run(ck, F, pid):
     check(ck, F, "%s.relation-kept" % pid, SCOPE[pid][0], FLOORS.get(pid, 0))
 
 
-FLOORS = {'C01': 183, 'C02': 152, 'C03': 118, 'C04': 27, 'C07': 104, 'C08': 465, 'C09': 198, 'C10': 41, 'C11': 62, 'C12': 40, 'C13': 77, 'C14': 74, 'C16': 159, 'C18': 113}
+FLOORS = {'C01': 337, 'C02': 152, 'C03': 118, 'C04': 27, 'C07': 104, 'C08': 465, 'C09': 198, 'C10': 41, 'C11': 62, 'C12': 40, 'C13': 77, 'C14': 74, 'C16': 159, 'C18': 113}
